@@ -1,15 +1,12 @@
 SPECIFICATION Spec
 CONSTANTS
-  MaxTypes = 3
-  MaxNested = 3
+  MaxTypes = 2
+  MaxNested = 1
   Langs = {"c", "cpp", "py", "html"}
-  Audits = {FALSE}
+  Audits = {TRUE}
   OpenSets = {{}}
   SortedWalk = FALSE
   Vary = {"clock", "loc", "cwd"}
 INVARIANT Refines
-INVARIANT PathsStable
-INVARIANT TreeStable
-INVARIANT OrderOK
-INVARIANT TypeOK
+INVARIANT SameEvenWithAudit
 CHECK_DEADLOCK FALSE
